@@ -2,7 +2,8 @@
 //! short random programs, is compared step by step with the u128 reference; equality,
 //! serialization and the documented representation range are asserted on every intermediate.
 
-use winter_utils::{Randomizable, SliceReader};
+use winter_math::FieldElement;
+use winter_utils::{Randomizable, Serializable, SliceReader};
 use wfv::{
     fields::{boundary_elements, res_of_raw, Fld},
     Finish, Rng, Run, State, J,
@@ -369,6 +370,135 @@ fn conversions<B: Fld>(run: &Run, n: u64) {
     });
 }
 
+
+// WORKLOAD 4: the conversions that only concrete field types publish (integers of every width in both
+// directions, fixed-size byte arrays, Display / Debug), on boundary integers and on elements with arbitrary
+// internal images
+// ------------------------------------------------------------------------------------------------
+fn typed_conversions(run: &Run, n: u64) {
+    use winter_math::fields::{f128, f62, f64};
+    let ints64 = wfv::fields::boundary_ints(wfv::refmath::P64);
+    let total = n + ints64.len() as u64;
+    run.par("typed-conv", total, |i, rng, st| {
+        let v: u128 = if (i as usize) < ints64.len() {
+            ints64[i as usize]
+        } else {
+            match rng.below(4) {
+                0 => rng.u128(),
+                1 => rng.u128() >> 64,
+                2 => rng.u128() >> rng.below(128),
+                _ => [wfv::refmath::P64, wfv::refmath::P62, wfv::refmath::P128][rng.usize(3)].wrapping_add(rng.below(9) as u128).wrapping_sub(4),
+            }
+        };
+        let bad = |what: &str, st: &mut State| st.violation(format!("typed:{what}"), J::s(v.to_string()));
+        // ---- f64
+        {
+            type B = f64::BaseElement;
+            let p = wfv::refmath::P64;
+            // integers -> element: accepted exactly below the modulus, and then the same residue
+            match B::try_from(v) {
+                Ok(e) if v < p => check::<B>(st, "try_from_u128", &[v], e, v),
+                Err(_) if v >= p => {},
+                _ => bad("f64:try_from_u128:accept-set", st),
+            }
+            let v64 = v as u64;
+            match B::try_from(v64) {
+                Ok(e) if (v64 as u128) < p => check::<B>(st, "try_from_u64", &[v64 as u128], e, v64 as u128),
+                Err(_) if (v64 as u128) >= p => {},
+                _ => bad("f64:try_from_u64:accept-set", st),
+            }
+            match B::try_from(v64 as usize) {
+                Ok(e) if (v64 as u128) < p => check::<B>(st, "try_from_usize", &[v64 as u128], e, v64 as u128),
+                Err(_) if (v64 as u128) >= p => {},
+                _ => bad("f64:try_from_usize:accept-set", st),
+            }
+            match B::try_from(v64.to_le_bytes()) {
+                Ok(e) if (v64 as u128) < p => check::<B>(st, "try_from_array", &[v64 as u128], e, v64 as u128),
+                Err(_) if (v64 as u128) >= p => {},
+                _ => bad("f64:try_from_array:accept-set", st),
+            }
+            check::<B>(st, "from_bool", &[v & 1], B::from(v & 1 == 1), v & 1);
+            // element -> integers, for an element with an arbitrary internal image
+            let raw = (v % p) as u64;
+            for e in [B::from_mont(raw), B::new(v64), B::new(v64).double(), -B::new(v64)] {
+                let r = e.res();
+                if u64::from(e) as u128 != r || u128::from(e) != r {
+                    bad("f64:into_u64/u128", st);
+                }
+                if u32::try_from(e).ok().map(|x| x as u128) != (if r <= u32::MAX as u128 { Some(r) } else { None })
+                    || u16::try_from(e).ok().map(|x| x as u128) != (if r <= u16::MAX as u128 { Some(r) } else { None })
+                    || u8::try_from(e).ok().map(|x| x as u128) != (if r <= u8::MAX as u128 { Some(r) } else { None })
+                    || bool::try_from(e).ok().map(|x| x as u128) != (if r <= 1 { Some(r) } else { None })
+                {
+                    bad("f64:try_into_small", st);
+                }
+                if format!("{e}") != r.to_string() || format!("{e:?}") != r.to_string() {
+                    bad("f64:display", st);
+                }
+                st.evals += 1;
+            }
+            // small elements built through every route are the same element
+            let s = (v % 256) as u8;
+            let routes = [B::from(s), B::from(s as u16), B::from(s as u32), B::try_from(s as u64).unwrap(), B::try_from(s as u128).unwrap(), B::new(s as u64)];
+            if routes.iter().any(|x| *x != routes[0] || x.to_bytes() != routes[0].to_bytes()) || u8::try_from(routes[0]) != Ok(s) {
+                bad("f64:small-routes", st);
+            }
+        }
+        // ---- f62
+        {
+            type B = f62::BaseElement;
+            let p = wfv::refmath::P62;
+            match B::try_from(v) {
+                Ok(e) if v < p => check::<B>(st, "try_from_u128", &[v], e, v),
+                Err(_) if v >= p => {},
+                _ => bad("f62:try_from_u128:accept-set", st),
+            }
+            let v64 = v as u64;
+            match B::try_from(v64) {
+                Ok(e) if (v64 as u128) < p => check::<B>(st, "try_from_u64", &[v64 as u128], e, v64 as u128),
+                Err(_) if (v64 as u128) >= p => {},
+                _ => bad("f62:try_from_u64:accept-set", st),
+            }
+            match B::try_from(v64.to_le_bytes()) {
+                Ok(e) if (v64 as u128) < p => check::<B>(st, "try_from_array", &[v64 as u128], e, v64 as u128),
+                Err(_) if (v64 as u128) >= p => {},
+                _ => bad("f62:try_from_array:accept-set", st),
+            }
+            let raw = v % (2 * p);
+            for e in [<B as Fld>::from_raw(raw), B::new(v64), B::new(v64) + B::new(v64), -B::new(v64), B::new(v64) + (-B::new(v64))] {
+                let r = e.res();
+                if r >= p || u64::from(e) as u128 != r || u128::from(e) != r {
+                    bad("f62:into_u64/u128", st);
+                }
+                if format!("{e}") != r.to_string() || format!("{e:?}") != r.to_string() {
+                    bad("f62:display", st);
+                }
+                st.evals += 1;
+            }
+        }
+        // ---- f128
+        {
+            type B = f128::BaseElement;
+            let p = wfv::refmath::P128;
+            match B::try_from(v) {
+                Ok(e) if v < p => check::<B>(st, "try_from_u128", &[v], e, v),
+                Err(_) if v >= p => {},
+                _ => bad("f128:try_from_u128:accept-set", st),
+            }
+            let v64 = v as u64;
+            check::<B>(st, "from_u64", &[v64 as u128], B::from(v64), v64 as u128);
+            let e = B::new(v);
+            if format!("{e}") != (v % p).to_string() || format!("{e:?}") != (v % p).to_string() {
+                bad("f128:display", st);
+            }
+            st.evals += 1;
+        }
+        st.case(wfv::fnv(format!("typed{v}").as_bytes()), true);
+        st.count("typed.conversion_values");
+        st.sample("typed-conversion", || J::obj(vec![("integer", J::s(v.to_string()))]));
+    });
+}
+
 // CONSTANTS
 // ------------------------------------------------------------------------------------------------
 fn is_prime_small(n: u128) -> bool {
@@ -455,8 +585,8 @@ fn all<B: Fld>(run: &Run) {
     constants::<B>(run);
     boundary_pairs::<B>(run);
     let slow = if B::MODULUS_BITS > 64 { 8 } else { 1 };
-    programs::<B>(run, run.size(240_000, 24_000_000) / slow);
-    conversions::<B>(run, run.size(100_000, 5_000_000) / slow);
+    programs::<B>(run, run.size(2_400_000, 48_000_000) / slow);
+    conversions::<B>(run, run.size(400_000, 10_000_000) / slow);
 }
 
 fn main() {
@@ -465,6 +595,7 @@ fn main() {
     all::<f64::BaseElement>(&run);
     all::<f62::BaseElement>(&run);
     all::<f128::BaseElement>(&run);
+    typed_conversions(&run, if std::env::var("VERIF_STAGE").as_deref() == Ok("miri") { 40 } else { run.size(200_000, 10_000_000) });
     let fields = ["f64", "f62", "f128"];
     let mut require = vec![];
     for f in fields {
@@ -474,8 +605,9 @@ fn main() {
         require.push((format!("{f}.constants_checked"), 1));
         require.push((format!("{f}.conversion_values"), 1000));
     }
+    require.push(("typed.conversion_values".to_string(), 30));
     run.finish(Finish {
-        rule: "boundary integers taken as residues and as internal (Montgomery) images: all ordered pairs x {add,sub,mul,div and assigning forms}, all unary ops, boundary exponents; random programs of 1..12 public operations over a 6-register file with the u128 reference in lock-step (value, ==, bytes, representation range asserted on every intermediate); conversions on boundary+random integers; published constants. A case is non-trivial when it is a pair/program of >= 2 steps/conversion value; distinct = distinct (operands) or (program hash)".into(),
+        rule: "boundary integers taken as residues and as internal (Montgomery) images: all ordered pairs x {add,sub,mul,div and assigning forms}, all unary ops, boundary exponents; random programs of 1..12 public operations over a 6-register file with the u128 reference in lock-step (value, ==, bytes, representation range asserted on every intermediate); conversions on boundary+random integers (generic byte/integer constructors, and per field every From/TryFrom between elements and bool/u8/u16/u32/u64/u128/usize/[u8; 8] in both directions, Display/Debug, on elements with arbitrary internal images); published constants. A case is non-trivial when it is a pair/program of >= 2 steps/conversion value; distinct = distinct (operands) or (program hash)".into(),
         assumptions: vec![
             "reference: u128 arithmetic with native % (62/64-bit primes) and double-and-add (128-bit prime); Fermat inversion".into(),
             "elements with arbitrary internal image are built with from_mont (f64, < M) and bytes_as_elements (f62, < 2M), i.e. inside the documented representation range".into(),
